@@ -89,13 +89,13 @@ fn compile_quoted_string_ex(s: &str) -> (v: String)
 #[verifier::external_body] pub fn str_starts_with_char(s: &String, c: char) -> (r: bool) ensures r == (s@.len() > 0 && s@[0] == c) { s.starts_with(c) }
 #[verifier::external_body] pub fn str_is_empty(s: &String) -> (r: bool) ensures r == (s@.len() == 0) { s.is_empty() }
 // R8: what compile_quoted_string does with the concatenated, decoded pieces `v`
-fn quoted_string_tail(v: String) -> (r: String)
-    ensures r@ == v@.push(0u8 as char), //@ C09:single-nul-terminator
+%s
 {
     let mut v = v;
 %s
 }
-""" % tail.text
+""" % (("pub struct Error { pub e: u8 }\nfn quoted_string_tail(v: String) -> (r: Result<String, Error>)\n    ensures r is Ok && r->Ok_0@ == v@.push(0u8 as char), //@ C09:single-nul-terminator" if re.search(r"\bOk\(v\)\s*$", tail.text.strip()) else
+       "fn quoted_string_tail(v: String) -> (r: String)\n    ensures r@ == v@.push(0u8 as char), //@ C09:single-nul-terminator"), tail.text)
     # R8: the literal-extraction window of cpp::process: the marker written into the text must be the table index of the literal pushed
     cpp = SourceFile(repo, "src/cpp.rs")
     ps, pob, pcb = cpp.find_fn_span("process")
